@@ -592,6 +592,49 @@ func genHopeless(r *rng, c genCfg) *scenario {
 	return sc
 }
 
+// genTwin: the documented finding F14 made on purpose — two distinct interface types with equal method sets (types 10
+// and 13): a converter's typed output of type 10 under subtype y reaches a parameter of type 10 under another subtype
+// through the subtype-less twin vertex of type 13, which exists as soon as something mentions type 13.
+func genTwin(r *rng, c genCfg) *scenario {
+	sc := &scenario{errOwner: map[int]int{}}
+	subs := []string{"x", "y", "k=v"}
+	want := subs[r.intn(3)]
+	have := subs[(indexOf(subs, want)+1+r.intn(2))%3]
+	p := lab{Ty: 10, Sub: want}
+	if r.chance(1, 2) {
+		p.Name = c.names[r.intn(len(c.names))]
+	}
+	target := &fnSpec{ID: 0, Ins: []lab{p}, Script: "ok", OForm: "pos", Form: []string{"struct", "ptr", "built"}[r.intn(3)]}
+	sc.Funcs = append(sc.Funcs, target)
+	src := r.intn(4)
+	sc.Opts = append(sc.Opts, optSpecC{Kind: "typed", Ty: src, Vid: 1})
+	f := c.newConv(r, sc, []lab{{Ty: 10, Sub: have}}, []lab{{Ty: src}})
+	f.Script, f.Once = "ok", false
+	// something that mentions the twin type without a subtype
+	g := c.newConv(r, sc, []lab{{Ty: 5 + r.intn(2)}}, []lab{{Ty: 13}})
+	g.Script, g.Once = "ok", false
+	for _, x := range []*fnSpec{f, g} {
+		k := "convfunc"
+		if x.Form != "built" && r.chance(1, 2) {
+			k = "conv"
+		}
+		sc.Opts = append(sc.Opts, optSpecC{Kind: k, Fids: []int{x.ID}})
+	}
+	if r.chance(1, 2) {
+		sc.Opts[0], sc.Opts[len(sc.Opts)-1] = sc.Opts[len(sc.Opts)-1], sc.Opts[0]
+	}
+	return sc
+}
+
+func indexOf(l []string, s string) int {
+	for i, x := range l {
+		if x == s {
+			return i
+		}
+	}
+	return 0
+}
+
 // genAffinity (C07): the two documented priority families.
 func genAffinity(r *rng, c genCfg) (*scenario, string) {
 	sc := &scenario{errOwner: map[int]int{}}
